@@ -404,6 +404,20 @@ def window_table(fi, rename=None):
     lp = loops[0]
     means = [c for c in ast.walk(lp) if isinstance(c, ast.Call) and ast.unparse(c.func).split(".")[-1] == "mean" and c.args and
              isinstance(c.args[0], ast.Subscript) and isinstance(c.args[0].value, ast.Name)]
+    # the mean taken once after the branches over a name each branch binds to its slice:  chunk = X[lo:hi] ... np.mean(chunk)
+    named = [c for c in ast.walk(lp) if isinstance(c, ast.Call) and ast.unparse(c.func).split(".")[-1] == "mean" and c.args and
+             isinstance(c.args[0], ast.Name)]
+    chunk = None
+    if not means and len(named) == 1:
+        chunk = named[0].args[0].id
+        defs = [st for st in ast.walk(lp) if isinstance(st, ast.Assign) and len(st.targets) == 1 and isinstance(st.targets[0], ast.Name) and
+                st.targets[0].id == chunk]
+        if defs and all(isinstance(d.value, ast.Subscript) and isinstance(d.value.value, ast.Name) and isinstance(d.value.slice, ast.Slice) for d in defs) and \
+                len({d.value.value.id for d in defs}) == 1:
+            means = [ast.Call(func=named[0].func, args=[d.value], keywords=[]) for d in defs]
+            chunk_defs = {id(d): m for d, m in zip(defs, means)}
+        else:
+            chunk = None
     if not means:
         return None, None
     arr = means[0].args[0].value.id
@@ -414,7 +428,7 @@ def window_table(fi, rename=None):
     fenv = straightline_env(fi.node.body, Normaliser(rename=ren), exclude=set(fi.params) | {loopvar, arr})
     rows = []
     top = [x for x in lp.body if isinstance(x, ast.If)][0]
-    after = [c for c in means if not any(c is y for y in ast.walk(top))]
+    after = [c for c in means if not any(c is y for y in ast.walk(top))] if chunk is None else []
 
     def bound(env, e):
         if e is None or (isinstance(e, ast.Constant) and e.value is None):
@@ -427,7 +441,9 @@ def window_table(fi, rename=None):
         env.env = dict(fenv.env)
         straightline_env(body, env)
         reads = []
-        for c in [c for st in body for c in ast.walk(st) if any(c is m for m in means)] + after:
+        in_body = [c for st in body for c in ast.walk(st) if any(c is m for m in means)] if chunk is None else \
+            [chunk_defs[id(d)] for st in body for d in ast.walk(st) if id(d) in chunk_defs]
+        for c in in_body + after:
             sl = c.args[0].slice
             if isinstance(sl, ast.Slice):
                 reads.append((bound(env, sl.lower), bound(env, sl.upper)))
@@ -443,6 +459,42 @@ def window_table(fi, rename=None):
             branch(None, node.orelse)
             break
     return rows, lp
+
+
+def clipped_window(fi):
+    """(ok, text) for a rolling loop without branches whose window is X[max(i - H, 0) : i + H + 1] with H = int(<width> / 2); None if there is
+    no such loop"""
+    import re
+    loops = [n for n in ast.walk(fi.node) if isinstance(n, ast.For) and not any(isinstance(x, ast.If) for x in ast.walk(n)) and
+             isinstance(n.target, ast.Name)]
+    hits = []
+    for lp in loops:
+        for c in ast.walk(lp):
+            if isinstance(c, ast.Call) and ast.unparse(c.func).split(".")[-1] == "mean" and c.args and isinstance(c.args[0], ast.Subscript) and \
+                    isinstance(c.args[0].value, ast.Name) and isinstance(c.args[0].slice, ast.Slice):
+                hits.append((lp, c))
+    if len(hits) != 1:
+        return None
+    lp, c = hits[0]
+    ren = {c.args[0].value.id: "X", lp.target.id: "i"}
+    env = straightline_env(fi.node.body, Normaliser(rename=ren), exclude=set(fi.params) | {lp.target.id, c.args[0].value.id})
+    sl = c.args[0].slice
+    if sl.step is not None or sl.lower is None or sl.upper is None:
+        return None
+    lo = sl.lower
+    if not (isinstance(lo, ast.Call) and ast.unparse(lo.func) in ("max", "np.maximum", "numpy.maximum") and len(lo.args) == 2 and not lo.keywords):
+        return None
+    i_ = Poly.atom("i")
+    parts = [env.poly(a) for a in lo.args]
+    zero = [p for p in parts if p == Poly.const(0)]
+    other = [p for p in parts if p != Poly.const(0)]
+    if len(zero) != 1 or len(other) != 1:
+        return False, " ".join(ast.unparse(c.args[0]).split())
+    H = i_ - other[0]
+    hi = env.poly(sl.upper)
+    hs = H.canon()
+    ok = hi == i_ + H + Poly.const(1) and H.is_monomial() and re.match(r"^1\*int\(1/2\*.+\)$", hs) is not None
+    return ok, "X[max(i - %s, 0) : %s]" % (hs, hi.canon())
 
 
 def _show_table(t):
@@ -484,6 +536,16 @@ def rolling_rules(chk):
         # a loop without a three-way decision on the index (window bounds precomputed, clipped, vectorised ...) is a different design: the
         # table cannot be located in it and the rule does not decide it; a three-way table that differs is refuted
         located = bool(t) and len(t) >= 2
+        if not located:
+            cw = clipped_window(fi)
+            if cw is not None:
+                # one window for every index, its lower bound clipped at the start of the record: X[max(i - h, 0) : i + h + 1], h = int(w/2).
+                # It selects the table's windows: i < w/2 gives i <= h, so max(i - h, 0) = 0; i > n - w/2 gives i + h + 1 > n, and a slice
+                # bound past the end is the end; where both apply the table takes its first row, [: i + h + 1], as the clipped form does
+                located = True
+                good = [cw[0], cw[0], cw[0]]
+                t = None
+                chk.note("%s: window written as one clipped slice %s" % (nm, cw[1]))
         unloc.append(not located)
         chk.ob("R-RA-SIB", "eqsig/single.py:%s{window table}" % nm, "windows [:i+h+1] / [i-h:] / [i-h:i+h+1] with h = int(w/2), branches i < w/2, "
                "i > n - w/2, else", all(good), derived="%s" % (_show_table(t),), loc=fi.loc(), inconclusive=not located)
